@@ -231,6 +231,21 @@ def tablesPreserved (before after : Hier) : Bool :=
 
 def tablesOK (H : Hier) : Bool := H.all fun b => !b.kind.isBranching || tableOK b
 
+/-! ## C15 -/
+
+/-- Everything the round trip must preserve about one entry (the container included). -/
+def sameEntry (a b : Blk) : Bool :=
+  a.cont == b.cont && a.name == b.name && a.kind == b.kind && a.jts == b.jts && a.bes == b.bes &&
+  a.pay == b.pay && a.asg == b.asg && a.var == b.var && a.tbl == b.tbl && a.rkind == b.rkind &&
+  a.header == b.header && a.exiting == b.exiting && a.parent == b.parent
+
+/-- Same blocks with the same types, payload fields, ordered successors, back edges, tables,
+    assignments, nesting (containers), headers and exiting blocks; dict insertion order is not
+    part of the comparison. -/
+def sameHier (H H' : Hier) : Bool :=
+  H.length == H'.length && nodupB H.names && nodupB H'.names &&
+  H.all fun a => H'.any (sameEntry a)
+
 /-- C06: on every path through the hierarchy (either walk, latches consuming their variable) no
     control-variable error occurs, and the tables agree with the successor tuples. -/
 def ctlOK (H : Hier) (htop : Name) : Bool :=
